@@ -85,6 +85,9 @@ struct Violation {
     detail: String,
 }
 
+/// the distinct-nontrivial set stops growing here (memory bound); the reported count is then a lower bound
+const NONTRIVIAL_CAP: usize = 4_000_000;
+
 pub struct Ctx {
     pub prop: String,
     pub tier: Tier,
@@ -220,13 +223,19 @@ impl Ctx {
     }
     pub fn nontrivial(&self, fingerprint: u64) {
         if !in_shrink() {
-            self.nontrivial.lock().unwrap().insert(fingerprint);
+            let mut g = self.nontrivial.lock().unwrap();
+            if g.len() < NONTRIVIAL_CAP {
+                g.insert(fingerprint);
+            }
         }
     }
     pub fn nontrivial_many(&self, fps: &mut Vec<u64>) {
         if !in_shrink() && !fps.is_empty() {
             let mut g = self.nontrivial.lock().unwrap();
             for f in fps.drain(..) {
+                if g.len() >= NONTRIVIAL_CAP {
+                    break;
+                }
                 g.insert(f);
             }
         }
@@ -360,6 +369,9 @@ impl Ctx {
             let mut coverage = serde_json::Map::new();
             coverage.insert("evaluations".into(), json!(self.evaluations.load(Ordering::Relaxed)));
             coverage.insert("distinct_nontrivial".into(), json!(nontrivial));
+            if nontrivial >= NONTRIVIAL_CAP {
+                coverage.insert("distinct_nontrivial_note".into(), json!("counting stopped at the memory cap: lower bound"));
+            }
             coverage.insert("rule".into(), json!(self.rule.lock().unwrap().clone()));
             coverage.insert("samples".into(), Value::Array(self.samples.lock().unwrap().clone()));
             coverage.insert("exhaustive".into(), json!(self.exhaustive.load(Ordering::Relaxed) && viols.is_empty()));
@@ -474,7 +486,7 @@ pub fn panic_site(msg: &str) -> String {
 // ---------------------------------------------------------------------------------------------
 const MAX_SLOTS: usize = 64;
 const HANG_CPU_SECS: f64 = 20.0;
-const RSS_LIMIT_BYTES: u64 = 12 << 30;
+const RSS_GROWTH_LIMIT_BYTES: u64 = 6 << 30;
 
 struct Slot {
     active: AtomicBool,
@@ -591,10 +603,12 @@ pub fn start_watchdog() {
         .spawn(|| {
             let mut last_seq = vec![0u64; MAX_SLOTS];
             let mut cpu_at_change = vec![0f64; MAX_SLOTS];
+            let mut rss_at_change = vec![0u64; MAX_SLOTS];
             loop {
                 std::thread::sleep(std::time::Duration::from_millis(100));
                 let rss = rss_bytes();
                 let mut worst: Option<(usize, f64)> = None;
+                let mut grown: u64 = 0;
                 for (i, s) in slots().iter().enumerate() {
                     if !s.active.load(Ordering::SeqCst) {
                         continue;
@@ -607,21 +621,26 @@ pub fn start_watchdog() {
                     if seq != last_seq[i] {
                         last_seq[i] = seq;
                         cpu_at_change[i] = cpu;
+                        rss_at_change[i] = rss;
                         continue;
                     }
                     let burned = cpu - cpu_at_change[i];
                     if worst.map(|w| burned > w.1).unwrap_or(true) {
                         worst = Some((i, burned));
+                        // memory the process gained while this one case has been running
+                        grown = rss.saturating_sub(rss_at_change[i]);
                     }
                 }
                 if let Some((i, burned)) = worst {
-                    let runaway = rss > RSS_LIMIT_BYTES && burned > 0.3;
+                    // runaway = the process grew by gigabytes while ONE case was executing (the
+                    // harness' own bookkeeping grows slowly and across cases, never within one)
+                    let runaway = grown > RSS_GROWTH_LIMIT_BYTES && burned > 0.3;
                     if burned > HANG_CPU_SECS || runaway {
                         let s = &slots()[i];
                         let kind = s.kind.lock().map(|k| k.clone()).unwrap_or_default();
                         let desc = s.desc.lock().map(|k| k.clone()).unwrap_or_default();
                         let why = if runaway {
-                            format!("runaway allocation (rss {} MiB) after {:.1}s cpu", rss >> 20, burned)
+                            format!("runaway allocation (process grew by {} MiB within one case) after {:.1}s cpu", grown >> 20, burned)
                         } else {
                             format!("no progress after {:.1}s thread cpu time", burned)
                         };
